@@ -18,6 +18,10 @@ from prtpy.packing.first_fit import decreasing as ffd
 
 
 
+def _python_number(value):
+    """ Numpy scalars of a narrow integer type (e.g. np.uint8) silently overflow when they are added up; Python numbers do not. """
+    return value.item() if isinstance(value, np.generic) else value
+
 def pack(
     algorithm: Callable,
     binsize: float,
@@ -70,6 +74,8 @@ def pack(
         item_names = items
         if valueof is None:
             valueof = lambda item: item
+    value_function = valueof
+    valueof = lambda item: _python_number(value_function(item))    # see the comment above on numpy arrays: the same holds for single numpy numbers.
     binner = outputtype.create_binner(valueof)
     bins = algorithm(binner, binsize, item_names, **kwargs)
     return outputtype.extract_output_from_binsarray(bins)
